@@ -281,15 +281,44 @@ def _xgcm_dir():
     return XGCM_DIR
 
 
+def cheap_state(w):
+    """Cheap structural fingerprint of the caller-owned containers and settings
+    (no array values): evaluated at every line event of a counting run to find
+    the line events at which the world is *transiently* modified."""
+
+    def ch(o):
+        if isinstance(o, dict):
+            return tuple((k if isinstance(k, (str, int)) else repr(k), ch(v)) for k, v in o.items())
+        if isinstance(o, (list, tuple)):
+            return tuple(ch(v) for v in o)
+        if o is None or isinstance(o, (str, int, float, bool)):
+            return o
+        return id(o)
+
+    arrays = tuple((a.name, a.dims, len(a.attrs), len(a.coords)) for a in w.arrays)
+    grids = tuple(
+        (tuple((n, ax.boundary, ax.fill_value, tuple(ax.coords.items()), tuple(sorted(ax.default_shifts.items())))
+               for n, ax in g.axes.items()),
+         tuple((tuple(sorted(k)), len(v)) for k, v in g._metrics.items()),
+         ch(g._face_connections))
+        for g in w.grids)
+    return (tuple(ch(m) for m in w.maps), arrays, grids, len(w.ds.variables), len(w.ds.attrs))
+
+
 class LineFault:
     """sys.settrace hook: counts line events inside xgcm/*.py; raises
-    InjectedFault at the k-th (k=None: count only)."""
+    InjectedFault at the k-th (k=None: count only).  With ``probe`` (a
+    callable returning the cheap world state) a counting run also records the
+    line events at which that state differs from ``probe_ref``."""
 
-    def __init__(self, k=None):
+    def __init__(self, k=None, probe=None):
         self.k = k
         self.n = 0
         self.fired_at = None
         self.dir = _xgcm_dir()
+        self.probe = probe
+        self.probe_ref = probe() if probe else None
+        self.dirty = []
 
     def _global(self, frame, event, arg):
         fn = frame.f_code.co_filename
@@ -300,6 +329,8 @@ class LineFault:
     def _local(self, frame, event, arg):
         if event == "line":
             self.n += 1
+            if self.probe is not None and len(self.dirty) < 64 and self.probe() != self.probe_ref:
+                self.dirty.append(self.n)
             if self.k is not None and self.n == self.k:
                 self.fired_at = f"{os.path.basename(frame.f_code.co_filename)}:{frame.f_lineno}"
                 raise InjectedFault(self.fired_at)
@@ -335,9 +366,14 @@ def call_op(w, op):
     raise ValueError(f"unknown op kind {kind}")
 
 
-def run_op(w, op, inject_k=None, count=False):
-    """Returns (outcome, lines, fired_at)."""
-    tracer = LineFault(inject_k) if (inject_k is not None or count) else None
+def run_op(w, op, inject_k=None, count=False, info=None):
+    """Returns (outcome, lines, fired_at).  ``info`` (dict) receives the dirty
+    line events of a counting run."""
+    tracer = None
+    if inject_k is not None:
+        tracer = LineFault(inject_k)
+    elif count:
+        tracer = LineFault(None, probe=lambda: cheap_state(w))
     try:
         with warnings.catch_warnings():
             warnings.simplefilter("ignore")
@@ -353,6 +389,8 @@ def run_op(w, op, inject_k=None, count=False):
         out = {"injected": True}
     except Exception as e:  # noqa
         out = {"exc": type(e).__name__}
+    if info is not None and tracer is not None:
+        info["dirty"] = list(tracer.dirty)
     return out, (tracer.n if tracer else None), (tracer.fired_at if tracer else None)
 
 
@@ -362,7 +400,7 @@ class Counters:
         self.c = {"histories": 0, "steps": 0, "ops_ok": 0, "ops_raised": 0,
                   "fault_refused_fired": 0, "fault_user_raise_fired": 0,
                   "fault_injected_fired": 0, "fault_injected_missed": 0,
-                  "shared_object_reuse": 0, "fresh_runs": 0, "snapshots": 0}
+                  "shared_object_reuse": 0, "fresh_runs": 0, "snapshots": 0, "fault_injected_at_dirty_line": 0}
         self.opkinds = {}
 
     def inc(self, k, n=1):
@@ -388,18 +426,27 @@ def execute(spec, cnt=None):
         if opkey not in fresh_cache:
             fw = build_world(ws)
             want_count = (op.get("fault") or {}).get("kind") == "inject"
-            fo, lines, _ = run_op(fw, op["call"], count=want_count)
-            fresh_cache[opkey] = (fo, lines)
+            finfo = {}
+            fo, lines, _ = run_op(fw, op["call"], count=want_count, info=finfo)
+            fresh_cache[opkey] = (fo, lines, finfo.get("dirty"))
             cnt.inc("fresh_runs")
-        fresh_out, fresh_lines = fresh_cache[opkey]
+        fresh_out, fresh_lines, dirty = fresh_cache[opkey]
         if (op.get("fault") or {}).get("kind") == "inject" and fresh_lines is None:
             fw = build_world(ws)
-            fo, fresh_lines, _ = run_op(fw, op["call"], count=True)
-            fresh_cache[opkey] = (fresh_out, fresh_lines)
+            finfo = {}
+            fo, fresh_lines, _ = run_op(fw, op["call"], count=True, info=finfo)
+            dirty = finfo.get("dirty")
+            fresh_cache[opkey] = (fresh_out, fresh_lines, dirty)
         fault = op.get("fault") or {}
         k = None
         if fault.get("kind") == "inject" and fresh_lines:
-            k = 1 + int(fault["frac"] * (fresh_lines - 1))
+            # faults are biased to land where in-flight state exists: if the counting run saw
+            # the world transiently modified at some line events, 80% of the injections go there
+            if dirty and fault["frac"] < 0.8:
+                k = dirty[int(fault["frac"] / 0.8 * len(dirty))]
+                cnt.inc("fault_injected_at_dirty_line")
+            else:
+                k = 1 + int(fault["frac"] * (fresh_lines - 1))
         out, _, fired_at = run_op(w, op["call"], inject_k=k)
         tag = "ok" if "ok" in out else ("injected" if "injected" in out else "exc:" + out["exc"])
         outcomes.append(tag)
@@ -504,8 +551,8 @@ def gen_simple_world(rng):
         return d
 
     arrays = [
-        {"dims": cdims(), "data": {"gen": "randint", "seed": rng.randrange(10**6)}, "name": "c0",
-         "attrs": {"units": "K"}},
+        {"dims": cdims(), "data": {"gen": "randint", "seed": rng.randrange(10**6)},
+         "name": None if rng.random() < 0.3 else "c0", "attrs": {"units": "K"}},
         {"dims": cdims(xpos="xg"), "data": {"gen": "randint", "seed": rng.randrange(10**6)}, "name": "u"},
     ]
     if has_y:
@@ -577,10 +624,14 @@ def gen_face_world(rng):
     axes = {"X": {"n": N, "pos": {"center": "xc", "left": "xg"}},
             "Y": {"n": N, "pos": {"center": "yc", "left": "yg"}}}
     extra = {"t": 2} if rng.random() < 0.3 else {}
+    has_w = rng.random() < 0.4
+    if has_w:
+        axes["W"] = {"n": 3, "pos": {"center": "wc", "left": "wg"}}
     gspec = {"axes": axes, "extra": extra, "face": {"dim": "face", "n": F}}
-    pre = ["face"] + (["t"] if extra else [])
+    pre = ["face"] + (["t"] if extra else []) + (["wc"] if has_w else [])
     arrays = [
-        {"dims": pre + ["yc", "xc"], "data": {"gen": "randint", "seed": rng.randrange(10**6)}, "name": "c"},
+        {"dims": pre + ["yc", "xc"], "data": {"gen": "randint", "seed": rng.randrange(10**6)},
+         "name": None if rng.random() < 0.3 else "c"},
         {"dims": pre + ["yc", "xg"], "data": {"gen": "randint", "seed": rng.randrange(10**6)}, "name": "u"},
         {"dims": pre + ["yg", "xc"], "data": {"gen": "randint", "seed": rng.randrange(10**6)}, "name": "v"},
     ]
@@ -588,6 +639,8 @@ def gen_face_world(rng):
         links = worlds.random_reciprocal_links(rng, F)
     else:
         links = worlds.tiling_links(F, 1, periodic_x=rng.random() < 0.5)
+    if rng.random() < 0.6:
+        links = worlds.sparsify(rng, links)
     fcj = {"face": links}
 
     def fc_items(fcj):
@@ -608,20 +661,20 @@ def gen_face_world(rng):
     addmap("oc_u", {"Y": {"$a": 2}})
     addmap("oc_v", {"X": {"$a": 1}})
     addmap("vec2", {"X": {"$a": 1}, "Y": {"$a": 2}})
-    addmap("boundary_total", {"X": rng.choice(words), "Y": rng.choice(words)})
+    addmap("boundary_total", {a: rng.choice(words) for a in axes})
     addmap("boundary_partial", {rng.choice(["X", "Y"]): rng.choice(["fill", "extend"])})
-    addmap("fill_total", {"X": float(rng.randint(-3, 3)), "Y": float(rng.randint(-3, 3))})
-    addmap("to_center_src", {"X": "left", "Y": "left"})
+    addmap("fill_total", {a: float(rng.randint(-3, 3)) for a in axes})
+    addmap("to_center_src", {a: "left" for a in axes})
     addmap("coords", {a: dict(axes[a]["pos"]) for a in axes})
     addmap("fc", fc_items(fcj))
     addmap("periodic_list", ["X"])
     gkw = {"coords": {a: dict(axes[a]["pos"]) for a in axes}, "autoparse_metadata": False,
-           "periodic": False, "boundary": rng.choice([rng.choice(words), {"X": rng.choice(words), "Y": rng.choice(words)}]),
+           "periodic": False, "boundary": rng.choice([rng.choice(words), {a: rng.choice(words) for a in axes}]),
            "fill_value": float(rng.randint(0, 2)), "face_connections": fc_items(fcj)}
     ws = {"kind": "faces", "gspec": gspec, "arrays": arrays, "nps": [], "maps": maps, "grids": [gkw], "ufuncs": [
         {"func": "fwd_diff", "kw": {"signature": "(X:center)->(X:left)", "boundary_width": {"X": {"$tuple": [1, 0]}}}}]}
-    info = {"axn": ["X", "Y"], "idx": {"c": 0, "u": 1, "v": 2}, "mi": mi, "has_y": True, "has_z": False,
-            "ngrids": 1, "faces": True, "xouter": False}
+    info = {"axn": ["X", "Y"] + (["W"] if has_w else []), "idx": {"c": 0, "u": 1, "v": 2}, "mi": mi, "has_y": True,
+            "has_z": False, "ngrids": 1, "faces": True, "xouter": False}
     return ws, info
 
 
